@@ -43,10 +43,12 @@ def run(ctx):
     ctx.rule("W4", "region predicate a[k:] == origin >> k with one k; origin and size converted bytes->words alike", min_sites=2)
     ctx.rule("W5", "the select gating returned data and the select gating cyc have the same register depth", min_sites=1)
     ctx.rule("W6", "the shared bus watchdog (wishbone.Timeout) terminates only an unanswered request: timer.wait = stb & cyc & "
-                   "~ack, forced ack / error data exactly on expiry (same obligations as C11.T3)", min_sites=5)
+                   "~ack, forced ack / error data exactly on expiry; built from timeout_cycles on the shared bus, after the Decoder so that its "
+                   "forced termination wins (same obligations as C11.T1-T3)", min_sites=8)
     ctx.rule("PRIO", "no dead driver", min_sites=0)
-    from .c11 import wb_timeout_body
+    from .c11 import wb_timeout_body, timeout_in_interconnect
     wb_timeout_body(ctx, "W6")
+    timeout_in_interconnect(ctx, WB, "InterconnectShared", "Timeout", "Decoder", r1="W6", r2="W6")
 
     lay = _layout(ctx)
     m2s = [n for n, d in lay if d == "DIR_M_TO_S"]
